@@ -401,3 +401,62 @@ Lemma leftover_harmless : forall d n v m name,
 Proof.
   intros. split; [apply set_atomic_after_leftover|]. split; [apply entity_key_not_tmp|apply is_tmp_tmp_of].
 Qed.
+
+(** ------------ sets (also of names at the file system's limit) and deletes, crash anywhere ------------ *)
+Definition effect (o : wop) (m : fname) (r : option bytes) : Prop :=
+  match o with
+  | WSet k v => sanitize k = m /\ r = Some v
+  | WDelete k => sanitize k = m /\ r = None
+  end.
+
+Lemma wop_crash d o i m : is_tmp m = false ->
+  let d' := apply_ops d (firstn i (wop_ops o)) in
+  fs_get d' m = fs_get d m \/ effect o m (fs_get d' m).
+Proof.
+  intros Hm. destruct o as [k v|k]; cbn [wop_ops effect]; cbn zeta.
+  - unfold set_ops_os. destruct (fits (sanitize k)).
+    + destruct (set_atomic_crash d (sanitize k) v i m) as [H1 H2].
+      destruct (eqb_list (sanitize k) m) eqn:E.
+      * destruct (H1 eq_refl) as [H|H]; [left; exact H|right]. apply eqb_list_spec in E. split; assumption.
+      * destruct (eqb_list (tmp_of (sanitize k)) m) eqn:E2.
+        -- apply eqb_list_spec in E2. subst m. rewrite is_tmp_tmp_of in Hm. discriminate.
+        -- left. apply H2; reflexivity.
+    + rewrite firstn_nil. left. reflexivity.
+  - destruct i as [|i]; cbn [firstn]; rewrite ?firstn_nil; unfold apply_ops; cbn [fold_left apply_op].
+    + left. reflexivity.
+    + destruct (eqb_list (sanitize k) m) eqn:E.
+      * apply eqb_list_spec in E. subst m. right. split; [reflexivity|apply fs_get_del_same].
+      * left. apply fs_get_del_other. intros X. subst m. rewrite eqb_list_refl in E. discriminate.
+Qed.
+
+Lemma wop_complete d o m : is_tmp m = false ->
+  let d' := apply_ops d (wop_ops o) in
+  fs_get d' m = fs_get d m \/ effect o m (fs_get d' m).
+Proof.
+  intros Hm. pose proof (wop_crash d o (length (wop_ops o)) m Hm) as H. rewrite firstn_all in H. exact H.
+Qed.
+
+Lemma writes_crash ws : forall d i m,
+  is_tmp m = false ->
+  let d' := apply_ops d (firstn i (writes_ops ws)) in
+  fs_get d' m = fs_get d m \/ exists o, In o ws /\ effect o m (fs_get d' m).
+Proof.
+  induction ws as [|o ws IH]; intros d i m Hm; cbn zeta.
+  - simpl. rewrite firstn_nil. left. reflexivity.
+  - cbn [writes_ops flat_map]. fold (writes_ops ws).
+    rewrite firstn_app, apply_ops_app.
+    destruct (Nat.le_gt_cases (length (wop_ops o)) i) as [Hi|Hi].
+    + rewrite firstn_all2 by exact Hi.
+      specialize (IH (apply_ops d (wop_ops o)) (i - length (wop_ops o))%nat m Hm). cbn zeta in IH.
+      destruct IH as [IH|(o' & Hin & He)].
+      * rewrite IH. destruct (wop_complete d o m Hm) as [H|H]; [left; exact H|].
+        right. exists o. split; [left; reflexivity|exact H].
+      * right. exists o'. split; [right; exact Hin|exact He].
+    + replace (i - length (wop_ops o))%nat with 0%nat by lia. cbn [firstn]. unfold apply_ops at 1. cbn [fold_left].
+      destruct (wop_crash d o i m Hm) as [H|H]; [left; exact H|].
+      right. exists o. split; [left; reflexivity|exact H].
+Qed.
+
+(** a name at the limit: nothing at all is written *)
+Lemma too_long_writes_nothing n v d i : fits n = false -> apply_ops d (firstn i (set_ops_os n v)) = d.
+Proof. intros H. unfold set_ops_os. rewrite H, firstn_nil. reflexivity. Qed.
